@@ -311,6 +311,22 @@ TIE2['C18'] = (TIE2['C18'][0] + ' TASK HALF: translate/taskdone_funs.py regenera
                'proving it -- close() re-raising a task callback\'s exception without closing the thread helper -- is repaired, repo e564ce9). The late-registration theorems are generalised to every '
                'registration that returns before the monitor thread ended (chains of late threads).',
                TIE2['C18'][1] + '; task half regenerated and proved equal to the model')
+# ---- session 5: the callback wiring of the state machine (fsm/machine.py, fsm/callback.py) and the thread helper's ast
+_MACHINE = (' MACHINE WIRING (every run): translate/machine_wiring.py regenerates every method of StateMachine and of Callback (fsm/machine.py, fsm/callback.py) and the '
+            '`before` names of CONFIG (Gen/MachineWiring.v); Life/MachineTie.v writes the callback resolution and order of transitions 0.9 for one trigger in Coq (trusted, '
+            'with file/line references), DERIVES from the regenerated code the script of every (state, trigger) pair -- before callbacks, on_exit_<source>, the state change, '
+            'on_enter_<dest>, after_state_change with its guard -- expands each Callback method into its hooks and waits, and proves for ALL model states that the segments of '
+            'Life/Model.v (enter_start/run/reset, close_trigger, do_step at every pc inside a trigger, run_finish, the run task\'s last steps) equal the interpretation of the '
+            'derived program: same hooks in the same order, each seeing the same state, the waits before / after the state change as in the code, refusal exactly for the '
+            'pairs without a CONFIG row (*_tie_machine_*). Not modelled there: a hook or wait that raises or is cancelled inside a trigger.')
+for _k in ('C01', 'C03', 'C15'):
+    TIE2[_k] = (TIE2[_k][0] + _MACHINE, TIE2[_k][1] + '; fsm/machine.py + fsm/callback.py regenerated, per-trigger callback scripts derived and proved equal to the model segments for all states')
+TIE2['C12'] = (_MACHINE, '; fsm/machine.py + fsm/callback.py regenerated, per-trigger callback scripts derived and proved equal to the model segments for all states')
+TIE2['C18'] = (TIE2['C18'][0] + ' THREAD HALF, AST LEVEL: translate/donecb_ast.py regenerates all six methods of ThreadDoneCallback as statement trees (fail-closed; locals numbered by first '
+               'use); DoneCb/SkelFacts.v interprets the leaves -- the polarity of every test, the value stored into _active, the argument of the callback, the handler, the exit test, __init__ '
+               '(set(), _closed False, Lock(), ExcThread(target=self._monitor, daemon=True) started last) -- and proves for ALL states that the interpreted monitor / register / close steps equal '
+               'DoneCb/Model.v\'s (C18_skelfacts_*), so every theorem over the model\'s runs transfers to the interpreted source; the control shape of _monitor is pinned by a matcher.',
+               TIE2['C18'][1] + '; thread helper ast regenerated, leaves interpreted and proved equal to the model steps')
 for _k, (_t, _q) in TIE2.items():
     CLAIMED[_k] = dict(CLAIMED[_k], text=CLAIMED[_k]['text'] + _t, technique=CLAIMED[_k]['technique'] + _q)
 
